@@ -1302,8 +1302,8 @@ def _copyprop(fn):
                     continue
             if isinstance(a, ast.Assign) and len(a.targets) == 1 and isinstance(a.targets[0], ast.Name) and a.targets[0].id.startswith('_inl') \
                     and _stores(fn, a.targets[0].id) == 1 and i + 1 < len(sub) and not isinstance(a.value, (ast.Constant, ast.Name)) \
-                    and not any(isinstance(y, (ast.Call, ast.Lambda, ast.NamedExpr, ast.Await, ast.Yield, ast.ListComp, ast.GeneratorExp, ast.DictComp, ast.SetComp))
-                                for y in ast.walk(a.value)):
+                    and not any(isinstance(y, (ast.Call, ast.Lambda, ast.NamedExpr, ast.Await, ast.Yield, ast.ListComp, ast.GeneratorExp, ast.DictComp, ast.SetComp,
+                                               ast.IfExp, ast.BoolOp)) for y in ast.walk(a.value)):
                 # a helper's result held in a temporary for one statement: `_ret = tokens * factor; out.extend(_ret)`
                 u = a.targets[0].id
                 nxt = sub[i + 1]
